@@ -41,7 +41,7 @@ Markup ==
     ">", "<r/>", "(", "a", "|b)", "(b|",
     ")", ",b)", "(b,", "((", "|b)*,b)+", "<!ENTITY e",
     " \"&e", ";\">", "<r>&e0001;</r>", "<r a=\"&e0001;\"/>", " \"v\">", ";&e",
-    "<a b=\"1\" c='2'>x", "y</a>", "</b>", "&e", ";", "<!ATTLIST r a", " CDATA \"v\">" }
+    "<a b=\"1\" c='2'>x", "y</a>", "</b>", "&e", ";", "<!ATTLIST r a", " CDATA \"v\">", "<!ATTLIST zz a CDATA \"&e0001;\">" }
 STab == [str \in Markup |-> Cps(str)]
 S(str) == STab[str]
 
@@ -126,6 +126,11 @@ LaughPiece(j) ==
   S("<!ENTITY e") \o D4(j) \o S(" \"&e") \o D4(j + 1) \o S(";&e") \o D4(j + 1) \o S(";\">")            \* 32
 Laughs(n) == DtdOpen \o Pieces(n, LaughPiece) \o S("<!ENTITY e") \o D4(n + 1) \o S(" \"v\">")
              \o DtdClose \o UseInAttr
+\* the same doubling chain, referenced only from the default value of an attribute of an element type that does
+\* not occur: nothing ever has to expand it (2^n characters), but every reference has to be CHECKED (declared, no
+\* recursion, no '<') - once per entity, not once per path through the chain
+LaughsUnused(n) == DtdOpen \o Pieces(n, LaughPiece) \o S("<!ENTITY e") \o D4(n + 1) \o S(" \"v\">")
+                   \o S("<!ATTLIST zz a CDATA \"&e0001;\">") \o DtdClose \o S("<r/>")
 
 \* constructs the library does not support, or odd ones: they must surface as Return or Error
 OddDocs == <<
@@ -185,7 +190,7 @@ Odd(n) == OddDocs[n]
 
 Families == { "Deep", "DeepMixed", "Unclosed", "Mismatch", "ManyEntities", "ManyAttlists", "ManyChildren", "ManyAttrs", "LongText", "LongComment", "LongAttr", "LongCData",
               "ManyRefs", "GroupsL", "GroupsR", "SeqGroupsL", "SeqGroupsR", "MixGroupsL", "Parens",
-              "CycleContent", "CycleAttr", "ChainContent", "ChainAttr", "Laughs", "Odd" }
+              "CycleContent", "CycleAttr", "ChainContent", "ChainAttr", "Laughs", "LaughsUnused", "Odd" }
 
 Render(f, n) ==
   CASE f = "Deep" -> Deep(n)
@@ -212,6 +217,7 @@ Render(f, n) ==
     [] f = "ChainContent" -> ChainContent(n)
     [] f = "ChainAttr" -> ChainAttr(n)
     [] f = "Laughs" -> Laughs(n)
+    [] f = "LaughsUnused" -> LaughsUnused(n)
     [] f = "Odd" -> Odd(n)
 
 \* The bound N of each family.  Exponential re-parsing / re-expansion cannot meet the bounds of the
@@ -230,6 +236,7 @@ MaxN(f) ==
     [] f \in {"CycleContent", "CycleAttr"} -> 40
     [] f \in {"ChainContent", "ChainAttr"} -> 500
     [] f = "Laughs" -> 12
+    [] f = "LaughsUnused" -> 40
     [] f = "Odd" -> Len(OddDocs)
 
 \* Every family is linear in n:  Len(Render(f, n)) <= A(f) * n + B(f)
@@ -249,7 +256,7 @@ LenA(f) ==
     [] f = "MixGroupsL" -> 10
     [] f = "Parens" -> 2
     [] f \in {"CycleContent", "CycleAttr", "ChainContent", "ChainAttr"} -> 26
-    [] f = "Laughs" -> 33
+    [] f \in {"Laughs", "LaughsUnused"} -> 33
     [] f = "Odd" -> 0
 MaxLen(f, n) == LenA(f) * n + 120
 
